@@ -306,7 +306,8 @@ def main():
             rep["status"] = "undecided: must-fire obligations absent (drift): %s" % missing
             print("NOTE run=%s drift: must-fire obligation(s) absent: %s" % (run.id, missing))
             run_reports.append(rep); continue
-        if unwind_fail:
+        if unwind_fail and not hard:
+            # (a counterexample found inside the bound is real whatever the bound; only a clean run needs complete unwinding)
             tool_errors.append((run, "unwinding assertion failed: bound too small for " + unwind_fail[0]["property"]))
             rep["status"] = "tool-error: unwinding"; run_reports.append(rep); continue
         for r in obl[:2] + [x for x in obl if x["description"] in run.s.get("must_fire_exact", [])][:2]:
